@@ -87,6 +87,69 @@ func oracleLoop(c *Case, idx int, out *childOut) {
 		}
 	}
 
+	// the same clause, with the configured factor 2: after j consecutive failures the wait has grown to
+	// min(Max, Min*2^(j-1)) - and it stays at Max however long the outage lasts. One-sided: a sleep never
+	// returns early, so start-to-start can only be longer.
+	streak = 0
+	for i := 1; i < n; i++ {
+		if failed(i - 1) {
+			streak++
+		} else {
+			streak = 0
+			continue
+		}
+		want := c.Max
+		if streak-1 < 62 {
+			if w := new(big.Int).Lsh(big.NewInt(c.Min), uint(streak-1)); w.Cmp(big.NewInt(c.Max)) < 0 {
+				want = w.Int64()
+			}
+		}
+		if gapSS := t.Start[i] - t.Start[i-1]; gapSS < want-slackBelow && gapSS >= c.Min-slackBelow {
+			bad("wait-below-backoff-schedule", fmt.Sprintf("after %d consecutive failures attempt %d started only %s after the previous one; with Min %s, Max %s, Factor 2 the wait has grown to %s by then", streak, i, fmtDur(gapSS), fmtDur(c.Min), fmtDur(c.Max), fmtDur(want)))
+			break
+		}
+	}
+
+	// a long-lived healthy connection: the server never failed, so there is exactly one upgrade, and every
+	// numbered message handed to r.Out (at least 1 s before the cancellation) comes back on r.In, in order
+	if c.Stay > 0 {
+		ups, first := 0, -1
+		for i := 0; i < n; i++ {
+			if c.Obs[i].Est {
+				ups++
+				if first < 0 {
+					first = i
+				}
+			}
+		}
+		if first >= 0 {
+			for i := first + 1; i < n; i++ {
+				if live(t.Start[i]) {
+					bad("healthy-connection-abandoned", fmt.Sprintf("the server upgraded attempt %d at %s and never failed, yet the client made attempt %d at %s (%d upgrades in all) while its context was live until %s", first, fmtDur(t.Start[first]), i, fmtDur(t.Start[i]), ups, fmtDur(t.CancelAt)))
+					break
+				}
+			}
+		}
+		for k, v := range t.EchoSeq {
+			if v != k {
+				bad("message-lost-while-connected", fmt.Sprintf("long-lived connection: echoes arrived as ... %v (position %d holds message %d): a message handed to r.Out was lost or reordered", t.EchoSeq[max0(k-2):min(len(t.EchoSeq), k+3)], k, v))
+				break
+			}
+		}
+		due := 0
+		for _, at := range t.SentAt {
+			if t.CancelAt < 0 || at < t.CancelAt-1000*ms {
+				due++
+			}
+		}
+		if len(t.EchoSeq) < due {
+			bad("message-lost-while-connected", fmt.Sprintf("long-lived connection: %d numbered messages were handed to r.Out at least 1 s before the cancellation, only %d came back from the echoing server", due, len(t.EchoSeq)))
+		}
+		if due < int(c.Stay/int64(400*ms))-5 {
+			bad("message-lost-while-connected", fmt.Sprintf("long-lived connection: r.Out accepted only %d messages in %s (one is offered every 300 ms)", due, fmtDur(c.Stay)))
+		}
+	}
+
 	// "once the context is cancelled it closes the connection and makes no further attempts"
 	if t.CancelAt >= 0 && !t.Forced {
 		for i := 0; i < n; i++ {
@@ -128,10 +191,24 @@ func oracleLoop(c *Case, idx int, out *childOut) {
 				break
 			}
 		}
-		if c.Obs[i].Est && i != c.Cancel.I && i < len(c.Sched) && c.Sched[i].W != "acceptdropw" && len(t.InSeq[i]) != c.Sched[i].K {
+		if c.Obs[i].Est && i != c.Cancel.I && i < len(c.Sched) && c.Sched[i].W != "acceptdropw" && c.Sched[i].W != "acceptstay" && len(t.InSeq[i]) != c.Sched[i].K {
 			bad("message-lost-while-connected", fmt.Sprintf("connection %d: the server sent %d messages and was acknowledged, r.In delivered %d", i, c.Sched[i].K, len(t.InSeq[i])))
 		}
 	}
+}
+
+func max0(a int) int {
+	if a < 0 {
+		return 0
+	}
+	return a
+}
+
+func min(a, b int) int {
+	if a < b {
+		return a
+	}
+	return b
 }
 
 // oracleBoff: the documented contract of the backoff counter, computed with exact integers:
